@@ -42,6 +42,8 @@ class FakeSocket:
         rec = (self, bytes(data), tuple(addr))
         self.sent.append(rec)
         self.net.log.append(rec)
+        if self.net.hook is not None:
+            self.net.hook(self, bytes(data), tuple(addr))
         return len(data)
 
     def recvfrom(self, n):
@@ -62,6 +64,7 @@ class Net:
     SO_REUSEADDR = 2
 
     def __init__(self):
+        self.hook = None       # optional callback(socket, data, destination) at send time
         self.log = []          # (socket, data, destination) in send order
         self.by_port = {}
         self.sockets = []
